@@ -18,6 +18,7 @@ from pathlib import PurePosixPath
 
 import cli_common as K
 import common as C
+import fault_probes as FP
 
 GOOD = ["dictarr", "list", "array", "logreg", "custom", "custom2"]
 BADV = ["birch", "complex", "dok"]
@@ -202,16 +203,22 @@ def run(R, only=None):
     for case, res in done:
         for sig, what in oracle(case, res):
             R.violation(sig, f"skops {' '.join(res['argv'])}: {what}", {"mode": "convert", "case": case})
+    # aliases the file-system model has no notion of (hard link / symlink to the input, '..' through a symlinked directory):
+    # judged directly against the property ("at the given output path", "leaves the input unchanged")
+    FP.run_and_judge(R, FP.CONVERT_PROBES, "C17")
     R.notes["rule"] = ("every value x every output kind with seeded input name / verbosity / pre-existing output, plus every input "
                        "name x verbosity 0..3 with the default output; one subprocess per case; the former D29 witness (pickle named m.skops in the cwd, no -o) is replayed every run")
     R.notes["guards"] = ["C17_completes / C17_equiv: same_file c = false (otherwise C17_same_file_refused: nothing happens at all)"]
-    R.notes["not_modelled"] = ["input file missing / not a pickle", "get_untrusted_types raising", "crash atomicity of the output (not claimed)"]
+    R.notes["not_modelled"] = ["input file missing / not a pickle", "get_untrusted_types raising", "crash atomicity of the output (not claimed)",
+                               "links (hard links / symlinks are probed on the implementation only: harness/impl_faults.py)"]
     if (not ok) or bad or R.broken:
         R.notes["search"] = "property oracle on every generated case (destination by pathlib, load equality, warning iff untrusted, failure leaves files alone)"
 
 
 def replay(R, rep):
     r = rep.get("replay") or {}
+    if r.get("mode") == "fault-probe":
+        return FP.run_and_judge(R, [r["probe"]], "C17")
     if r.get("mode") != "convert":
         return run(R)
     scr = K.Scratch("C17")
